@@ -1564,7 +1564,7 @@ impl UnifiedCommandExecutor {
                 handle_xgroup(&self.storage, db, &frames)
             }
             
-            ConsumerGroupCommand::XReadGroup { group, consumer, keys_and_ids, count, block: _block, noack: _noack } => {
+            ConsumerGroupCommand::XReadGroup { group, consumer, keys_and_ids, count, block: _block, noack } => {
                 use crate::storage::commands::consumer_groups::handle_xreadgroup;
                 let mut frames = vec![
                     RespFrame::from_string("XREADGROUP"),
@@ -1576,6 +1576,10 @@ impl UnifiedCommandExecutor {
                 if let Some(c) = count {
                     frames.push(RespFrame::from_string("COUNT"));
                     frames.push(RespFrame::from_string(c.to_string()));
+                }
+                
+                if noack {
+                    frames.push(RespFrame::from_string("NOACK"));
                 }
                 
                 frames.push(RespFrame::from_string("STREAMS"));
@@ -1603,7 +1607,7 @@ impl UnifiedCommandExecutor {
                 handle_xack(&self.storage, db, &frames)
             }
             
-            ConsumerGroupCommand::XPending { key, group, range, consumer: _consumer } => {
+            ConsumerGroupCommand::XPending { key, group, range, consumer } => {
                 use crate::storage::commands::consumer_groups::handle_xpending;
                 let mut frames = vec![
                     RespFrame::from_string("XPENDING"),
@@ -1615,12 +1619,15 @@ impl UnifiedCommandExecutor {
                     frames.push(RespFrame::from_string(start));
                     frames.push(RespFrame::from_string(end));
                     frames.push(RespFrame::from_string(count.to_string()));
+                    if let Some(consumer) = consumer {
+                        frames.push(RespFrame::from_string(consumer));
+                    }
                 }
                 
                 handle_xpending(&self.storage, db, &frames)
             }
             
-            ConsumerGroupCommand::XClaim { key, group, consumer, min_idle_time, ids, force: _force, justid: _justid } => {
+            ConsumerGroupCommand::XClaim { key, group, consumer, min_idle_time, ids, force, justid } => {
                 use crate::storage::commands::consumer_groups::handle_xclaim;
                 let mut frames = vec![
                     RespFrame::from_string("XCLAIM"),
@@ -1632,6 +1639,12 @@ impl UnifiedCommandExecutor {
                 
                 for id in ids {
                     frames.push(RespFrame::from_string(id));
+                }
+                if force {
+                    frames.push(RespFrame::from_string("FORCE"));
+                }
+                if justid {
+                    frames.push(RespFrame::from_string("JUSTID"));
                 }
                 
                 handle_xclaim(&self.storage, db, &frames)
